@@ -1,6 +1,7 @@
 from icalendar.parser_tools import to_unicode
 
 from collections import OrderedDict
+from collections.abc import Mapping
 
 
 def canonsort_keys(keys, canonical_order=None):
@@ -86,7 +87,18 @@ class CaselessDict(OrderedDict):
         return f'{type(self).__name__}({dict(self)})'
 
     def __eq__(self, other):
-        return self is other or dict(self.items()) == dict(other.items())
+        if self is other:
+            return True
+        if not isinstance(other, Mapping):
+            return False
+        if not isinstance(other, CaselessDict):
+            # compare with the upper-cased content of any other mapping
+            try:
+                other = CaselessDict(other)
+            except (AttributeError, TypeError):
+                # keys that are not str or bytes
+                return False
+        return dict(self.items()) == dict(other.items())
 
     def __ne__(self, other):
         return not self == other
